@@ -1103,7 +1103,7 @@ class Duration(AnyAtomicType):
             msg = 'argument has an invalid type {!r}'
             raise TypeError(msg.format(type(text)))
 
-        match = cls.pattern.match(text.strip())
+        match = Duration.pattern.match(text.strip())
         if match is None:
             raise ValueError('%r is not an xs:duration value' % text)
 
@@ -1199,6 +1199,7 @@ class Duration(AnyAtomicType):
 
 class YearMonthDuration(Duration):
     name = 'yearMonthDuration'
+    pattern = LazyPattern(r'^-?P(?=[0-9])(?:[0-9]+Y)?(?:[0-9]+M)?$')
 
     @classmethod
     def make(cls, value: Any, **kwargs: Any) -> 'YearMonthDuration':
@@ -1263,6 +1264,10 @@ class YearMonthDuration(Duration):
 
 class DayTimeDuration(Duration):
     name = 'dayTimeDuration'
+    pattern = LazyPattern(
+        r'^-?P(?=[0-9]|T)(?:[0-9]+D)?'
+        r'(?:T(?=[0-9])(?:[0-9]+H)?(?:[0-9]+M)?(?:[0-9]+(?:\.[0-9]+)?S)?)?$'
+    )
 
     @classmethod
     def make(cls, value: Any, **kwargs: Any) -> 'DayTimeDuration':
